@@ -301,6 +301,16 @@ def spec_exec(case):
             bind(rel, s, env, top=True)
         return env
 
+    fn_seen = {}
+
+    def note_fn(rel, n, k, stmt):
+        # the property does not say what happens to the call syntax of a function that is imported in one scope and
+        # imported or declared again by another statement (the alias table of the parser is not scoped)
+        if k == "f":
+            prev = fn_seen.setdefault((rel, n), id(stmt))
+            if prev != id(stmt):
+                raise Silent()
+
     def bind(rel, s, env, top):
         if s[0] == "I":
             tg = targets(case, s)
@@ -311,6 +321,7 @@ def spec_exec(case):
                         raise Silent()
                     if n in env:
                         raise Silent()
+                    note_fn(rel, n, pub[n], s)
                     env[n] = (tg[0], pub[n])
             else:
                 for q in tg:
@@ -319,11 +330,29 @@ def spec_exec(case):
                     for n, k in publics(case, q).items():
                         if k is None or n in env:
                             raise Silent()
+                        note_fn(rel, n, k, s)
                         env[n] = (q, k)
         elif s[0] in ("D", "F"):
             if s[1] in env:
                 raise Silent()
+            if s[0] == "F":
+                note_fn(rel, s[1], "f", s)
             env[s[1]] = (rel, "f" if s[0] == "F" else s[2])
+            if s[0] == "F":
+                check_body(rel, s[3], dict(env))
+
+    def check_body(rel, stmts, env):
+        """every name a function body uses must be visible there (whether or not the function is ever called)"""
+        for t in stmts:
+            if t[0] == "I":
+                bind(rel, t, env, False)
+            elif t[0] == "U":
+                if t[1] not in env or env[t[1]][1] != t[2]:
+                    raise Silent()
+            elif t[0] == "B":
+                check_body(rel, t[2], dict(env))
+            elif t[0] in ("D", "F"):
+                raise Silent()
 
     def run(rel, stmts, env, depth, top):
         if depth > 6:
@@ -356,7 +385,9 @@ def spec_exec(case):
             elif s[0] == "B":
                 c = s[1]
                 n = c[1] if c[0] == "R" else (1 if c[1] else 0)
-                for _ in range(n):
+                if n == 0:
+                    check_body(rel, s[2], dict(env))
+                for it in range(n):
                     run(rel, s[2], dict(env), depth, False)
     for q in reach_from(static_graph(case), [root]):
         if q not in case["mods"]:
@@ -1204,6 +1235,8 @@ def main():
     menu = [dict(), dict(), dict(dirs=True), dict(dirs=True), dict(overlap=True), dict(repeat=True), dict(graph="diamond"), dict(graph="diamond", overlap=True),
             dict(cycle=1), dict(cycle=2), dict(cycle=3), dict(cycle=4), dict(badname=True), dict(badname=True, overlap=True),
             dict(nested=True), dict(nested=True), dict(missing=True), dict(collide=True), dict(graph="chain"), dict(graph="fan", repeat=True)]
+    if os.environ.get("C10_ONLY"):
+        menu = [m for m in menu if os.environ["C10_ONLY"] in m]
     for i in range(n_random):
         opts = dict(menu[i % len(menu)])
         if opts.get("nested"):
